@@ -2239,9 +2239,26 @@ fn eval_int_binop(
                 ));
             }
 
-            Value::new(Value_::Int(lhs_num / rhs_num))
+            match lhs_num.checked_div(rhs_num) {
+                Some(num) => Value::new(Value_::Int(num)),
+                None => {
+                    return Err((
+                        RestoreValues(vec![lhs_value.clone(), rhs_value.clone()]),
+                        EvalError::Exception(ExceptionInfo {
+                            position: position.clone(),
+                            message: ErrorMessage(vec![Text(format!(
+                                "Integer overflow on dividing {} by {}.",
+                                lhs_value.display(env),
+                                rhs_value.display(env),
+                            ))]),
+                        }),
+                    ));
+                }
+            }
         }
-        BinaryOperatorKind::Modulo => match lhs_num.checked_rem_euclid(rhs_num) {
+        // Only a zero divisor is an error: `i64::MIN % -1` overflows in
+        // the division but its remainder is exactly 0.
+        BinaryOperatorKind::Modulo => match (rhs_num != 0).then(|| lhs_num.wrapping_rem_euclid(rhs_num)) {
             Some(num) => Value::new(Value_::Int(num)),
             None => {
                 return Err((
